@@ -10,6 +10,7 @@
    Reference counts are *derived* from this graph and `gc_step` applies the code's thresholds. *)
 From Coq Require Import List NArith Bool Arith.
 From Delb.Base Require Import PyStr.
+From Delb.Gen Require Import GenGC.
 Import ListNotations.
 
 Definition oid := nat.                                  (* identity of a Python object *)
@@ -43,9 +44,11 @@ Definition rc_doc (w : world) (d : oid) : nat := 4 + refs w d.
    + client references *)
 Definition rc_node (w : world) (x : wrapper) : nat :=
   4 + b2n (w_tag x) + (match w_doc x with Some _ => 1 | None => 0 end) + refs w (w_id x).
-(* `4 + isinstance(node, TagNode) + (node.__document__ is not None and getrefcount(node.__document__) == 4)` *)
+(* `4 + isinstance(node, TagNode) + (node.__document__ is not None and getrefcount(node.__document__) == 4)`;
+   the two constants are the ones the source has on this run (Gen/GenGC.v), whereas the 4s and 3s in the
+   rc_* definitions count the references the object graph really contains *)
 Definition threshold (w : world) (x : wrapper) : nat :=
-  4 + b2n (w_tag x) + match w_doc x with Some d => b2n (Nat.eqb (rc_doc w d) 4) | None => 0 end.
+  node_base + b2n (w_tag x) + match w_doc x with Some d => b2n (Nat.eqb (rc_doc w d) doc_base) | None => 0 end.
 Definition node_referenced (w : world) (x : wrapper) : bool := threshold w x <? rc_node w x.
 (* getrefcount(current) for an appended text object: the call's argument, the predecessor's
    `_appended_text_node`, the local `current`, the successor's `_bound_to` if any, + client references *)
@@ -54,14 +57,14 @@ Definition rc_text (w : world) (t : tobj) (has_next : bool) : nat := 3 + b2n has
 Fixpoint app_ref (w : world) (l : list tobj) : bool :=
   match l with
   | [] => false
-  | t :: r => let hn := negb (null r) in (3 + b2n hn <? rc_text w t hn) || app_ref w r
+  | t :: r => let hn := negb (null r) in (app_base + b2n hn <? rc_text w t hn) || app_ref w r
   end.
 (* getrefcount(head) for `_tail_node` / `_data_node` (since /repo e92425d): the call's argument, the
    wrapper's attribute, the local, the first appended object's `_bound_to` if any, + client references *)
 Definition rc_head (w : world) (o : oid) (has_app : bool) : nat := 3 + b2n has_app + refs w o.
 (* `getrefcount(tail_node) > 3 + (tail_node._appended_text_node is not None)` *)
 Definition head_ref (w : world) (o : oid) (app : list tobj) : bool :=
-  let ha := negb (null app) in 3 + b2n ha <? rc_head w o ha.
+  let ha := negb (null app) in head_base + b2n ha <? rc_head w o ha.
 (* the `continue`s: wrapper referenced; tail head referenced; data head referenced (TagNode); an
    appendee of the data chain (TagNode) or of the tail chain referenced *)
 Definition keep (w : world) (x : wrapper) : bool :=
